@@ -11,6 +11,7 @@ import (
 	"bytes"
 	"encoding/json"
 	"fmt"
+	"os"
 	"testing"
 )
 
@@ -180,6 +181,11 @@ func c07Bytes(r *vfRand, n int) []byte {
 // returns them with the effective limit (-1 stream, 0 = default).
 func c07Limits(r *vfRand) (outer, inner, eff int64) {
 	pick := func() int64 {
+		if r.Chance(1, 16) {
+			// limits on the internal buffer boundaries of the read paths (io.ReadAll growth,
+			// bufio, io.Copy / gzip round of 8 pages, twice that)
+			return int64(r.PickInt(512, 4096, 8*os.Getpagesize(), 16*os.Getpagesize()))
+		}
 		switch r.Intn(6) {
 		case 0:
 			return 0
@@ -200,9 +206,15 @@ func c07Limits(r *vfRand) (outer, inner, eff int64) {
 // c07Size picks a body size around the effective limit.
 func c07Size(r *vfRand, eff int64, adv bool) int {
 	if eff <= 0 {
+		if r.Chance(1, 12) { // streamed / default-limited bodies on buffer boundaries
+			return r.PickInt(4096, 8*os.Getpagesize(), 16*os.Getpagesize()) + r.PickInt(-1, 0, 0, 1)
+		}
 		return r.PickInt(0, 1, 7, 64, 65, 300, 5000)
 	}
 	l := int(eff)
+	if l > 400 {
+		return r.PickInt(l-1, l, l, l+1, l+1, l/2, 2*l)
+	}
 	if adv {
 		return r.PickInt(l-1, l, l+1, l+1, l, 10*l)
 	}
